@@ -215,7 +215,8 @@ def _run(ctx):
                         fields |= {y[1] for y in walk(a) if y.tag == 'field'}
     rep.check({'a', 'a1', 'b', 'li', 'ri'} <= fields, 'R-C02-6', 'R-C02-6/decoded-points', 'the dynamic points are decompress() of the proof\'s a, a1, b, every L, every R',
               'dynamic points decode only %s' % sorted(fields & {'a', 'a1', 'b', 'li', 'ri'}), ctx.where(v, gbb))
-    rep.floor('R-C02-6', 'decompress sites feeding the gate', ndec, 5)
+    # (counted per decoded proof member: the same member may be decoded at a shared site for L and R)
+    rep.floor('R-C02-6', 'proof members decoded on the way to the gate', len(fields & {'a', 'a1', 'b', 'li', 'ri'}), 5)
     unw = 0
     for b in ctx.facts.reachable_from([v]):
         for bb2, t2 in ctx.calls(b):
